@@ -185,6 +185,7 @@ def _get_sliced_deme(d, t):
                         e_bottom = copy.copy(e)
                         e_bottom["start_size"] = s
                         d_new["epochs"].append(e_bottom)
+                        sliced = True
         else:
             d_new[k] = v
     return d_new
